@@ -194,10 +194,7 @@ func resolveAnchors(c *Ctx) *Anchors {
 			a.BindingPowers = g
 		}
 	}
-	if a.BindingPowers == nil {
-		lost("precedence table (map[tokType]int) not found")
-	}
-	a.Table = evalFunctionTable(c, a)
+	// (no map: the precedence may be a pure function, see Ctx.power)
 	return a
 }
 
@@ -314,4 +311,14 @@ func evalFunctionTable(c *Ctx, a *Anchors) []*TableEntry {
 	}
 	sort.Slice(out, func(i, j int) bool { return out[i].Key < out[j].Key })
 	return out
+}
+
+// table: the evaluated function table (resolved on first use, so that rules
+// that do not need it are not affected when its shape is not recognised).
+func (c *Ctx) table() []*TableEntry {
+	if !c.tableDone {
+		c.A.Table = evalFunctionTable(c, c.A)
+		c.tableDone = true
+	}
+	return c.A.Table
 }
